@@ -113,7 +113,7 @@ ROUTES = {
     "http://sim.example/doc.nt": (200, {"Content-Type": "application/n-triples"}, DOC_NT),
     "http://sim.example/moved": (302, {"Location": "http://sim.example/doc.ttl"}, b""),
 }
-MISC = ["len", "contains", "contains-foreign", "triples-foreign-context", "graphs", "contexts", "quads", "value", "items", "cbd", "all_nodes", "connected", "isomorphic", "to_isomorphic", "to_canonical_graph", "graph_diff", "skolemize", "de_skolemize", "collection", "slice", "subjects", "objects", "path", "iter", "get_context-read", "bool", "n3", "eq", "transitive_objects", "transitive_subjects", "transitiveClosure", "triples_choices", "resource", "subject_predicates", "predicate_objects", "getitem-path", "contexts-triple", "print", "prepared-query", "isomorphic-copy", "subtract", "union-op", "triples_choices-foreign", "quads-foreign", "remove-nothing"]
+MISC = ["len", "contains", "contains-foreign", "triples-foreign-context", "graphs", "contexts", "quads", "value", "items", "cbd", "all_nodes", "connected", "isomorphic", "to_isomorphic", "to_canonical_graph", "graph_diff", "skolemize", "de_skolemize", "collection", "slice", "subjects", "objects", "path", "iter", "get_context-read", "bool", "n3", "eq", "transitive_objects", "transitive_subjects", "transitiveClosure", "triples_choices", "resource", "subject_predicates", "predicate_objects", "getitem-path", "contexts-triple", "print", "prepared-query", "isomorphic-copy", "subtract", "union-op", "triples_choices-foreign", "quads-foreign", "remove-nothing", "get_context-foreign", "query-graphvar-bound-to-foreign-graph"]
 
 
 def generate(seed, tier):
@@ -421,6 +421,19 @@ def execute(trace, ctx):
             ctx.probe("foreign-graph-as-context")
             fg = foreign if gsel in (0, None) else foreign_unknown
             return ("v", _srt(tuple(key(y) for y in x) for x in top.triples_choices((pat[0], [URIRef(P), URIRef(Q)], pat[2]), context=fg))), False
+        if w == "get_context-foreign":
+            # a Graph object of another store handed to get_context(): an error or a view, never an import
+            if not isds:
+                return ("v", None), False
+            ctx.probe("foreign-graph-as-context")
+            fg = foreign if gsel in (0, None) else foreign_unknown
+            return ("v", _srt(_gkeys(top.get_context(fg)))), False
+        if w == "query-graphvar-bound-to-foreign-graph":
+            if not isds:
+                return ("v", None), False
+            ctx.probe("foreign-graph-as-context")
+            fg = foreign if gsel in (0, None) else foreign_unknown
+            return ("v", _srt(tuple(key(y) for y in row) for row in top.query("SELECT ?s ?p ?o WHERE { GRAPH ?g { ?s ?p ?o } }", initBindings={"g": fg}))), False
         if w == "quads-foreign":
             if not isds:
                 return ("v", None), False
